@@ -15,6 +15,8 @@
 package moss
 
 import (
+	"bytes"
+
 	"github.com/couchbase/moss"
 )
 
@@ -30,6 +32,13 @@ type Iterator struct {
 }
 
 func (x *Iterator) Seek(seekToKey []byte) {
+	// Seek only ever advances. moss may have collapsed the iterator onto
+	// the single segment that still has entries, and seeking that one
+	// backwards would surface entries that newer segments deleted
+	if x.err == nil && bytes.Compare(seekToKey, x.k) <= 0 {
+		return
+	}
+
 	_ = x.iter.SeekTo(seekToKey)
 
 	x.k, x.v, x.err = x.iter.Current()
